@@ -63,7 +63,7 @@ TRUSTED = [
     "correspondence harness: canonicalisers, the recording proxy around qulacs.ParametricQuantumCircuit, decoding of "
     "pairings from exactly representable values",
     "floating point: correspondence inputs are dyadic (coefficients k/16, parameters k/32) so every compared number is "
-    "exact; the numeric comparison uses the absolute tolerance 1e-9·(1+Σ|coef|)",
+    "exact; the numeric comparison uses the absolute tolerance 1e-9·(1+Σ|coef|)·max(1, <v|v>) (v the initial vector)",
 ]
 
 
@@ -1293,19 +1293,44 @@ def rand_gates(rng, n, depth, clifford=False):
 
 
 def rand_vector(rng, n):
-    """normalised initial vector as plain data: complex amplitudes, real amplitudes (floats) or a basis vector of ints"""
+    """initial amplitude vector as plain data. QuantumStateVector accepts ANY vector of length 2^n and no route normalises
+    it (established on the unchanged tree: vector, density-matrix, sparse and simulator routes all give <v|U† O U|v>, e.g.
+    8 for 2·I on [2,0,0,0]); so besides unit vectors (complex, real, an int basis vector) the generator gives legal vectors
+    that are not of unit norm: a scaled unit vector, small-integer amplitudes (possibly all zero), a raw superposition
+    with entries in {0, ±1, ±i}"""
     import numpy as np
 
+    dim = 2**n
     r = rng.random()
-    if r < 0.1:
-        v = [0] * (2**n)
-        v[rng.randrange(2**n)] = 1
+    if r < 0.08:
+        v = [0] * dim
+        v[rng.randrange(dim)] = 1
         return v
+    if r < 0.2:
+        return [rng.choice([0, 0, 1, 1, -1, 1j, -1j]) for _ in range(dim)]
     if r < 0.3:
-        w = np.array([rng.gauss(0, 1) for _ in range(2**n)])
-        return (w / np.linalg.norm(w)).tolist()
-    v = np.array([complex(rng.gauss(0, 1), rng.gauss(0, 1)) for _ in range(2**n)])
-    return (v / np.linalg.norm(v)).tolist()
+        if rng.random() < 0.5:
+            return [rng.randint(-3, 3) for _ in range(dim)]
+        return [complex(rng.randint(-3, 3), rng.randint(-2, 2)) for _ in range(dim)]
+    if r < 0.45:
+        w = np.array([rng.gauss(0, 1) for _ in range(dim)])
+        v = w / np.linalg.norm(w)
+    else:
+        v = np.array([complex(rng.gauss(0, 1), rng.gauss(0, 1)) for _ in range(dim)])
+        v = v / np.linalg.norm(v)
+    if rng.random() < 0.3:
+        v = v * rng.choice([2, 3, 0.5, 0.25, 1.5, 0.01, -2, 2j])
+    return v.tolist()
+
+
+def vnorm2(vec):
+    """<v|v> of a plain-data initial vector (1 for the default |0..0>)"""
+    return 1.0 if vec is None else float(sum(abs(complex(x)) ** 2 for x in vec))
+
+
+def vscale(vec):
+    """factor on absolute tolerances of quantities quadratic in the amplitudes"""
+    return max(1.0, vnorm2(vec))
 
 
 def gate_objects(n, gates):
@@ -1450,7 +1475,7 @@ def numeric_eval(ctx: Ctx, rng, eps, n, ops, sspecs, shape, clifford, sparse_ok=
         oi = 0 if a == 1 else i
         si = 0 if b == 1 else i
         want.append(c04ref.expectation([(l, cplx(c)) for l, c in est_terms(ops[oi])], sspecs[si]))
-    tl = max(tol(est_terms(o)) for o in ops)
+    tl = max(tol(est_terms(o)) for o in ops) * max(vscale(sp.get("vec")) for sp in sspecs)
     inp = {"kind": "numeric", "n": n, "ops": [enc_est(o) for o in ops], "states": sspecs, "shape": shape, "clifford": clifford,
            "op_same_item_as": same_as(ops), "state_same_item_as": same_as(sspecs)}
     cmp = 0
@@ -1580,7 +1605,7 @@ def numeric_param_case(ctx: Ctx, rng, P):
     if rng.random() < 0.2:
         pvs = [pvs[0]] * rng.randint(2, 3)  # one and the same parameter vector at every position of the batch
     want = [c04ref.expectation(terms, spec, p) for p in pvs]
-    tl = tol(est_terms(o))
+    tl = tol(est_terms(o)) * vscale(vecinit)
     inp = {"kind": "numeric-parametric", "n": n, "circuit": [kind, nparams, gates], "vec": vecinit, "op": enc_est(o), "params": pvs}
 
     def angles(p):
@@ -1721,7 +1746,7 @@ def simulator_eval(ctx: Ctx, rng, spc, inp):
         out = sim.evaluate_state_to_vector(st)
         v = np.asarray(out.vector)
         cmp += 1
-        if v.shape != psi.shape or np.abs(v - psi).max() > 1e-9 or out.qubit_count != n or len(out.circuit.gates) != 0:
+        if v.shape != psi.shape or np.abs(v - psi).max() > 1e-9 * math.sqrt(vscale(spc.get("vec"))) or out.qubit_count != n or len(out.circuit.gates) != 0:
             ctx.witness("wrong-vector:evaluate_state_to_vector", "evaluate_state_to_vector differs from circuit · initial vector "
                         "(or keeps gates on the evaluated state)", sinp, {"got": str(v.tolist())[:400], "want": str(psi.tolist())[:400],
                                                                           "gates_left": len(out.circuit.gates)})
@@ -1746,7 +1771,7 @@ def simulator_eval(ctx: Ctx, rng, spc, inp):
         keep = init.copy()
         v = np.asarray(sim.run_circuit(carg, init))
         cmp += 1
-        if v.shape != psi.shape or np.abs(v - psi).max() > 1e-9 or not np.array_equal(init, keep):
+        if v.shape != psi.shape or np.abs(v - psi).max() > 1e-9 * math.sqrt(vscale(spc.get("vec"))) or not np.array_equal(init, keep):
             ctx.witness("wrong-vector:run_circuit", "run_circuit differs from circuit · initial vector (or changes its input)", sinp,
                         {"got": str(v.tolist())[:400], "want": str(psi.tolist())[:400], "input_unchanged": bool(np.array_equal(init, keep))})
     except Exception as e:  # noqa: BLE001
@@ -1761,7 +1786,7 @@ def simulator_eval(ctx: Ctx, rng, spc, inp):
         if rho is not None:
             cmp += 1
             want = np.outer(psi, psi.conj())
-            if rho.shape != want.shape or np.abs(rho - want).max() > 1e-9:
+            if rho.shape != want.shape or np.abs(rho - want).max() > 1e-9 * vscale(spc.get("vec")):
                 ctx.witness("wrong-density-matrix:simulator", "the density matrix simulated with the empty noise model is not |psi><psi|",
                             sinp, {"max_abs_diff": float(np.abs(rho - want).max()) if rho.shape == want.shape else str(rho.shape)})
     measured = {q: rng.randint(0, 1) for q in range(n) if rng.random() < 0.5} or {rng.randrange(n): rng.randint(0, 1)}
@@ -1771,7 +1796,7 @@ def simulator_eval(ctx: Ctx, rng, spc, inp):
     try:
         got_p = float(sim.get_marginal_probability(psi.copy(), measured))
         cmp += 1
-        if abs(got_p - want_p) > 1e-9:
+        if abs(got_p - want_p) > 1e-9 * vscale(spc.get("vec")):
             ctx.witness("wrong-value:get_marginal_probability", "get_marginal_probability differs from the sum of |amplitude|^2 over "
                         "the basis states with the given bits", {"kind": "marginal", "state": spc, "measured": {str(q): b for q, b in measured.items()}},
                         {"got": got_p, "want": want_p})
@@ -2042,7 +2067,7 @@ def compiled_history_eval(ctx: Ctx, rng, inp):
                     for s, v in zip(states, vecs):
                         psi = np.asarray(evaluate_state_to_vector(s).vector)
                         got.append(complex(np.vdot(psi, c04ref.operator_matrix(terms, n) @ psi)))
-                if len(got) != len(want) or any(abs(g - w) > tl for g, w in zip(got, want)):
+                if len(got) != len(want) or any(abs(g - w) > tl * vscale(v) for g, w, v in zip(got, want, vecs)):
                     ctx.witness("compiled-history:plain", "an estimation on a compiled circuit inside a history (copies of its Qulacs circuit "
                                 "changed by the caller, several states sharing it) differs from the oracle", inp,
                                 {"step": step[0], "got": str(got), "want": str(want)})
@@ -2078,7 +2103,7 @@ def compiled_history_eval(ctx: Ctx, rng, inp):
                     got = [complex(r.value) for r in cpest(ro, st, [list(p) for p in ps])]
                 else:
                     got = [complex(r.value) for r in gest(ro, st, [list(p) for p in ps])]
-                if len(got) != len(want) or any(abs(g - w) > tl for g, w in zip(got, want)):
+                if len(got) != len(want) or any(abs(g - w) > tl * vscale(inp.get("vec")) for g, w in zip(got, want)):
                     ctx.witness("compiled-history:parametric", "an estimation on a compiled parametric circuit inside a history (copies "
                                 "changed by the caller, earlier estimations at other parameters) differs from the oracle", inp,
                                 {"step": step[0], "params": ps, "got": str(got), "want": str(want)})
@@ -2512,6 +2537,9 @@ def run(ctx: Ctx, replay=None) -> int:
         "executor=None (chunking with an executor is C11's subject)",
         "density-matrix estimators with the empty NoiseModel only",
         "stim estimator on Clifford circuits (named Clifford gates, CNOT/CZ/SWAP, Pauli gates) only",
+        "initial vectors: any vector of length 2^n is legal (QuantumStateVector does not normalise and no exact route does: the value "
+        "documented and returned on the unchanged tree is <v|U† O U|v>); unit, scaled, integer-valued, raw {0,±1,±i} and zero vectors are "
+        "generated, absolute tolerances scale with max(1, <v|v>)",
         "wide registers (11-12 qubits for Qulacs, up to 70 for stim): product states of single-qubit Pauli eigenstates only",
         "get_sparse_matrix formats: values (and <psi|M|psi>) are judged, the storage class of the returned matrix is only counted",
         "samplers of quri_parts.qulacs.simulator are not C04's subject (C07/C08/C11)",
